@@ -1068,9 +1068,46 @@ def run(info, out):
                 ex_cases.append(gen_case(rng, exact=True, force_order=o, force_n=n))
     while len(ex_cases) < nexact:
         ex_cases.append(gen_case(rng, exact=True))
+    # call HISTORIES: a convolution right after another one in the same process whose inputs agree in part — the same kernel and
+    # order and a knot vector equal in its first naxes entries but different in the last order+1; the same knots with another
+    # kernel; the same everything in another dimension count. (execute() deals case i to process i mod NCPU: a sibling is placed
+    # NCPU positions after its original so that it is the very next call of that process.)
+    rh = rng.fork("histories")
+    npairs = NCPU * (1 if tier == "quick" else 6)
+    firsts, seconds = [], []
+    for i in range(npairs):
+        a = gen_case(rh.fork("a%d" % i))
+        t, d = a.t, a.dim
+        o, k = t.orders[d], list(t.knots[d])
+        na = len(k) - o - 1
+        how = rh.choice(["tail-knots", "tail-knots", "last-knot", "kernel", "coefs"])
+        k2, ker2, coefs2 = list(k), list(a.kernel), list(t.coefs)
+        if how == "tail-knots":
+            w = (k[-1] - k[na - 1]) or 1.0
+            k2 = k[:na] + [k[na - 1] + (v - k[na - 1]) * 1.5 + 0.125 * w * (j + 1) for j, v in enumerate(k[na:])]
+        elif how == "last-knot":
+            k2 = k[:-1] + [k[-1] + abs(k[-1] - k[0]) * 0.25 + 1e-3]
+        elif how == "kernel":
+            ker2 = [v * 1.25 for v in a.kernel]
+        else:
+            coefs2 = [to_f32(c * 0.5 + 1.0) for c in t.coefs]
+        if not strictly_increasing(k2):
+            k2 = list(k)
+        kn2 = [list(x) for x in t.knots]; kn2[d] = k2
+        b = Case(Table(list(t.orders), kn2, coefs2, t.pad), d, ker2, None, via_c=a.via_c, exact=False, kind=a.kind)
+        b.points = gen_points(rh.fork("p%d" % i), b, 6)
+        firsts.append(a); seconds.append(b)
+    hist = []
+    for b0 in range(0, npairs, NCPU):
+        hist += firsts[b0:b0 + NCPU] + seconds[b0:b0 + NCPU]
+    stats["history_pairs"] = npairs
     allc = cases + ex_cases
+    himpl, hmod, hcr = execute(hist, "hist")
+    hd, hv = analyse(hist, "hist", himpl, hmod, hcr, out, stats)
+    total_eval += sum(1 + len(c.points) for c in hist)
     impl, mod, crashes = execute(allc, "main")
     ndiff, nviol = analyse(allc, "main", impl, mod, crashes, out, stats)
+    ndiff += hd; nviol += hv
     ndiff += stats.get("corpus_disagreements", 0)
     total_eval += sum(1 + len(c.points) for c in allc)
     ndiff += directed_points(allc, "main", impl, mod, out, stats, rng.fork("aim-main"))
